@@ -26,6 +26,9 @@ type Msg struct {
 type Step struct {
 	Block bool  `json:"block,omitempty"`
 	Msgs  []Msg `json:"msgs,omitempty"`
+	// NoTx: the messages are executed outside a transaction (as a passed governance proposal
+	// does): ctx.TxBytes() is empty, so all such creations see the same tx hash
+	NoTx bool `json:"notx,omitempty"`
 }
 type History struct {
 	Counter0 uint32 // initial value of the intra-tx counter (near 2^32 in the wrap stream)
@@ -81,7 +84,7 @@ func gen(r *lib.Rand, tier, stream string, i int) History {
 				}
 				ms = append(ms, m)
 			}
-			h.Steps = append(h.Steps, Step{Msgs: ms})
+			h.Steps = append(h.Steps, Step{Msgs: ms, NoTx: stream == "notx" && r.Chance(2, 3)})
 		}
 	}
 	return h
@@ -128,6 +131,9 @@ func exec(h History) lib.Case {
 			c.Steps = append(c.Steps, "block")
 		} else {
 			txBytes := e.NextTxBytes()
+			if st.NoTx {
+				txBytes = nil
+			}
 			txh := sha256.Sum256(txBytes)
 			txi := txs.Id(string(txh[:]))
 			var msgs []sdk.Msg
